@@ -119,6 +119,20 @@ def run(ctx):
         fk = bks[0]
         b = prog.body(fk)
         evs = builders.push_events(prog, fk, ctors)
+        # the emoji are wrapped with the parts of *the* split value of the builder (the one that is converted / curled): a stage that splits the text
+        # again wraps them in raw punctuation
+        sp18 = c17.split_fn(prog)
+        split_owner = fk if any(callee_name(t) == sp18 for (_, t) in b.calls()) else None
+        if split_owner is None:
+            cands18 = [k for k in prog.reach([builders.builder_root(prog, fk)[0]], foreign_trait_impls=False)
+                       if k in prog.fns and prog.fns[k].get("kind") != "Closure" and any(callee_name(t) == c17.quoter_fn(prog) for (_, t) in prog.body(k).calls())]
+            split_owner = cands18[0] if len(cands18) == 1 else fk
+        _root18, extra18 = builders.second_splits(prog, split_owner, sp18, ctors)
+        if extra18:
+            r3.violation("%s:single-split" % mode, "%s splits the text again and wraps candidates with the parts of that second split value, which is neither converted nor "
+                         "curled like the word's own punctuation" % extra18[0].split("::")[-1], common.fn_line(prog, extra18[0]))
+        else:
+            r3.ok("%s:single-split" % mode, "one split value per builder")
         emo_calls = [(bb, t) for (bb, t) in b.calls() if callee_name(t) in emoticon_acc]
         name_calls = [(bb, t) for (bb, t) in b.calls() if callee_name(t) in name_acc]
         want_name_kind = "name" if mode == "phonetic" else "bengali"
